@@ -90,6 +90,16 @@ def run_job(job):
         from symx.core import Engine
         import symx.core as core
 
+        if job.get("special") in ("selfcheck_fixedint", "selfcheck_symint"):
+            from symx import selfcheck
+
+            f = selfcheck.check_fixedint if job["special"] == "selfcheck_fixedint" else selfcheck.check_symint
+            probs, n = f(job.get("seed", 0))
+            out["model_points"] = n
+            for p in probs[:10]:
+                out["problems"].append({"kind": "model-validation", "error": p})
+            out["wall"] = time.time() - t0
+            return out
         mod = importlib.import_module(job["module"])
         h = mod.HARNESSES[job["harness"]]
         args = job.get("args", {})
@@ -261,6 +271,9 @@ def main(mod):
         j.setdefault("module", mod.__name__)
     if a.only:
         jobs = [j for j in jobs if a.only in j["label"]]
+    elif not getattr(mod, "NO_SELFCHECK", False):
+        jobs.append({"label": "selfcheck:fixedint-model", "special": "selfcheck_fixedint", "seed": seed, "cost": 1000, "module": "symx.selfcheck", "harness": "-"})
+        jobs.append({"label": "selfcheck:symint-encodings", "special": "selfcheck_symint", "seed": seed, "cost": 999, "module": "symx.selfcheck", "harness": "-"})
     jobs.sort(key=lambda j: -j.get("cost", 1))
     budget = a.budget if a.budget is not None else getattr(mod, "BUDGET", {}).get(a.tier)
     results = []
@@ -309,7 +322,7 @@ def finish(mod, a, seed, t0, jobs, results, skipped):
     unconfirmed = []
     canary_total = {}
     funcs = set()
-    tot = {k: 0 for k in ("paths", "ok", "pruned", "cut", "vcs", "vc_ok", "validated", "queries", "decisions")}
+    tot = {k: 0 for k in ("paths", "ok", "pruned", "cut", "vcs", "vc_ok", "validated", "queries", "decisions", "model_points")}
     solver_time = 0.0
     samples = []
     for r in results:
@@ -418,6 +431,7 @@ def finish(mod, a, seed, t0, jobs, results, skipped):
                 "solver_unknown": len([p for p in problems if p["kind"] in ("unknown", "vc-unknown")]),
                 "canaries": {"%s/%s" % k: n for k, n in list(canary_total.items())[:40]},
                 "canaries_total": len(canary_total),
+                "model_validation_points": tot["model_points"],
                 "known_findings_hit": sorted(known_hits),
                 "inconclusive": inconclusive,
                 "exit_code": rc,
